@@ -32,14 +32,15 @@ def run_ctl(case):
     import pygradflow.step.distance_ratio_control as DC
     import pygradflow.step.residuum_ratio_control as RC
     from pygradflow.log import logger
-    from pygradflow.params import Params, StepControlType
+    from pygradflow.params import Params, Precision, StepControlType
     from pygradflow.step.step_control import step_controller
     from pygradflow.timer import Timer
 
     p = case["prm"]
     params = Params(newton_tol=p["newton_tol"], lamb_init=p["lamb_init"], lamb_min=p["lamb_min"], lamb_red=p["lamb_red"],
                     lamb_inc=p["lamb_inc"], theta_max=p["theta_max"], step_control_type=StepControlType[KINDS[case["kind"]]],
-                    time_limit=case["time_limit"])
+                    time_limit=case["time_limit"],
+                    precision=Precision.Single if case.get("single") else Precision.Double)
 
     class StubFunc:
         def __init__(self, problem, iterate, dt):
@@ -86,11 +87,16 @@ class StepCtl(Unit):
         cases = []
         for k in range(2000 if tier == "thorough" else 400):
             kind = k % 4
-            tol = 2.0 ** r.choice([-6, -3, 0])
+            tol = 2.0 ** r.choice([-6, -3, 0, -30])       # 2^-30: far below float32 resolution at 1
             prm = {"newton_tol": tol, "lamb_init": 2.0 ** r.randint(-2, 2), "lamb_min": 2.0 ** r.choice([-12, -4, -1]),
                    "lamb_red": r.choice([0.5, 0.25]), "lamb_inc": r.choice([2.0, 4.0]), "theta_max": r.choice([0.5, 0.75, 1.0, 2.0])}
             lamb = 2.0 ** r.randint(-5, 5)
             res0 = 2.0 ** r.randint(-2, 6)
+            single = r.random() < 0.25                                   # Precision.Single must not change any decision
+            if k % 16 == 0:
+                # residuals between newton_tol and float32 resolution: converged means <= newton_tol in every precision
+                single, tol, res0 = True, 2.0 ** -30, 2.0 ** -r.randint(14, 18)
+                prm["newton_tol"] = tol
             L = r.randint(10, 12)
             stream = []
             cur = res0
@@ -116,7 +122,8 @@ class StepCtl(Unit):
                 t += r.choice([0.0, 0.5, 1.0, 2.0])
                 clock.append(t)
             cases.append({"kind": kind, "prm": prm, "lamb": lamb, "res0": res0, "pi": 2.0 ** r.randint(-2, 2), "stream": stream,
-                          "evalbad": evalbad, "time_limit": tl, "clock": clock})
+                          "evalbad": evalbad, "time_limit": tl, "clock": clock,
+                          "single": single})
         return cases
 
     def impl(self, case):
